@@ -26,7 +26,7 @@ type VerifC15Op struct {
 	Returns     bool
 	HasDynamic  bool
 	HasMemory   bool
-	Execute     string // name of the execute function ("opAdd", "makePush.func1", ...)
+	Execute     string // name of the execute function ("opAdd", "makePush", ...)
 	Dynamic     string
 	Memory      string
 	Name        string // OpCode.String()
@@ -46,6 +46,13 @@ func verifC15FuncName(f interface{}) string {
 		n = n[i+1:]
 	}
 	n = strings.TrimPrefix(n, "vm.")
+	// closures: keep only the name of the function that made them (the rest of
+	// the symbol depends on inlining decisions of the compiler)
+	for _, seg := range strings.Split(n, ".") {
+		if strings.HasPrefix(seg, "make") || seg == "memoryCopierGas" {
+			return seg
+		}
+	}
 	return n
 }
 
